@@ -111,7 +111,7 @@ def opndOnOffsetScale {K : Type} : Opnd K → Bool
 /-- the unit rule each ufunc must be registered with for the temperature semantics to apply -/
 def ruleClass : List (String × String) :=
   [("add", "_preserve_units"), ("subtract", "_difference_units"),
-   ("multiply", "_multiply_units"), ("divide", "_divide_units"), ("floor_divide", "_divide_units"),
+   ("multiply", "_multiply_units"), ("divide", "_divide_units"), ("floor_divide", "_floor_divide_units"),
    ("power", "_power_unit"), ("sqrt", "_sqrt_unit"), ("cbrt", "_cbrt_unit"), ("square", "_square_unit"),
    ("reciprocal", "_reciprocal_unit"),
    ("less", "_comparison_unit"), ("less_equal", "_comparison_unit"), ("greater", "_comparison_unit"),
